@@ -28,7 +28,8 @@ func rxHasNG(r *lexref.Rx) bool {
 // satisfies the whole rule = first occurrence of the terminator).
 func ngStop(m *lx.RefM) bool {
 	for i, r := range m.St.Mode.Rules {
-		if rxHasNG(r.Rx) && m.C.Nullable(m.St.R[i]) {
+		// complete, and a non-greedy repetition is still open in it
+		if rxHasNG(r.Rx) && m.C.Nullable(m.St.R[i]) && m.C.NGLive(m.St.R[i]) {
 			return true
 		}
 	}
@@ -115,6 +116,30 @@ func c08Specs(quick bool) []c08Spec {
 								rules = append(rules, extra...)
 								out = append(out, c08Spec{spec: &lexref.Spec{Modes: []lexref.Mode{{Rules: rules}}}})
 							}
+						}
+					}
+				}
+			}
+		}
+	}
+	// A greedy tail after the terminator, for bodies that share no character
+	// with the terminator: once the terminator has been read the non-greedy
+	// repetition is closed and what follows is consumed greedily
+	// ("[ab]+? 'x' [ab]*" matches "aaxab" whole).
+	for _, card := range []int{lexref.CStarNG, lexref.CPlusNG} {
+		for _, p := range []*lexref.Rx{nil, lexref.Lit("y")} {
+			for _, b := range []*lexref.Rx{cls(lexref.Ch('a'), lexref.Ch('b')), lexref.Alt(cls(lexref.Ch('a')), cls(lexref.Ch('b')))} {
+				for _, t := range []string{"x", "xy", "yx"} {
+					for _, tail := range []*lexref.Rx{lexref.Rep(cls(lexref.Ch('a'), lexref.Ch('b')), lexref.CStar), lexref.Rep(lexref.Lit("b"), lexref.COpt), lexref.Rep(cls(lexref.Range('a', 'z')), lexref.CPlus)} {
+						var parts []*lexref.Rx
+						if p != nil {
+							parts = append(parts, p)
+						}
+						parts = append(parts, lexref.Rep(b, card), lexref.Lit(t), tail)
+						ng := lexref.Rule{K: lexref.RToken, Name: "NG", Rx: lexref.Cat(parts...)}
+						for _, comp := range [][]lexref.Rule{nil, {id}, {ws}} {
+							rules := append([]lexref.Rule{ng}, comp...)
+							out = append(out, c08Spec{spec: &lexref.Spec{Modes: []lexref.Mode{{Rules: rules}}}})
 						}
 					}
 				}
@@ -229,9 +254,9 @@ func init() {
 	mc.Register(&mc.Check{
 		ID:    "C08",
 		Level: "model_checking",
-		Rule: "specifications: prefix {none,'x','xy','xx'} x body {., [ab], ~[b], [a]|[b], [a-z]} x terminator {all literals of length 1-3 over a,b; 'x','xa','ax'} x {*?, +?} x the rule written as a token, a discarding, an emitting and an accumulating fragment x greedy companions {none, identifier, rule sharing the prefix, whitespace, literal, pairs} placed before or after; " +
+		Rule: "specifications: prefix {none,'x','xy','xx'} x body {., [ab], ~[b], [a]|[b], [a-z]} x terminator {all literals of length 1-3 over a,b; 'x','xa','ax'} x {*?, +?} x the rule written as a token, a discarding, an emitting and an accumulating fragment x greedy companions {none, identifier, rule sharing the prefix, whitespace, literal, pairs} placed before or after; plus rules with a greedy tail after the terminator where body and terminator share no character; " +
 			"each: BFS of the product (real state machine) x (reference in which a rule of the non-greedy shape ends at its first complete match) - all input lengths - plus all strings up to L symbols through the real driver; non-trivial = accepted spec whose product was searched completely",
-		Assume: []string{"reference: internal/lexref derivatives + 'first complete match ends the run' for rules containing *? or +?", "when a non-greedy rule completes, the earliest-declared rule matching exactly that run acts (the general rule of C02)"},
+		Assume: []string{"reference: internal/lexref derivatives; a run ends at the first point where a rule with a non-greedy repetition is complete while that repetition is still open (once the terminator closes it, what follows is greedy)", "when a non-greedy rule completes, the earliest-declared rule matching exactly that run acts (the general rule of C02)"},
 		Worker: c08Worker,
 		Replay: c08Replay,
 	})
